@@ -223,8 +223,8 @@ func (x *Exec) runTransaction(c *Contract, key string, fn Val, cbArgs []Val, set
 	var res Val
 	x.callFunction(fn.Fn, fn.Binds, cbArgs, nil, func(v Val) { res = v; setRes(v) }, p)
 	if rollback && res.T != "" {
-		// bolt, badger and leveldb discard the writes of a failed function; the pebble
-		// driver has no transactions and keeps them: either may happen
+		// bolt and badger discard the writes of a failed function; the leveldb driver
+		// commits regardless and the pebble driver has no transactions: either may happen
 		discards := x.smt.fresh("txn.discards", "Bool")
 		failed := "(and " + discards + " (not (= " + x.termOf(res) + " ANil)))"
 		x.setSV("KV.dom", ghostSVs["KV.dom"], ite(failed, preDom, x.getSV("KV.dom", ghostSVs["KV.dom"])))
